@@ -60,7 +60,7 @@ def main():
                 if t is None:
                     out.append({'none': True})
                 else:
-                    out.append({'text': str(t).encode('utf-8', 'surrogateescape').hex(), 'cls': type(t).__name__})
+                    out.append({'text': str(t).encode('utf-8', 'surrogatepass').hex(), 'cls': type(t).__name__})
             except ValueError as ex:
                 out.append({'err': 1, 'cls': type(ex).__name__})
             except IndexError:
